@@ -784,8 +784,12 @@ package kcp
 //@   ensures @C10 [header-size-accounts-for-cipher-and-fec] result.hdr()
 //@   modifies all(DefaultSnmp)
 //@   ensures result != nil && fresh(result) && result.imm() && result.kcp.conv == conv && result.remote == remote
-//@   ensures result.block == block && result.l == l
+//@   ensures @C06 @C09 [the-configured-cipher-is-the-one-installed] result.block == block
+//@   ensures result.l == l
 //
+//@ func serveConn
+//@   modifies all(DefaultSnmp)
+//@   ensures @C06 @C09 [the-configured-cipher-is-the-one-installed] result0 != nil ==> result0.block == block
 //@ func Listener.closeSession inline
 //@ func Listener.unregisterSession inline
 //@ func UDPSession.Close counted trusted
